@@ -322,6 +322,32 @@ def run(repo, run, tier):
     run.check(R5, "declast.ExprParser.expression:as-written", ok,
               "BinaryOp(lhs, op, rhs) must be built from the operator token and the parsed right operand exactly as "
               "written (each assigned once per iteration): rewriting `a + -b` or `a - -b` changes values", dm.loc(ex))
+    # `enum class E` and `enum struct E` are both scoped enumerations: whatever keyword the parser consumes after `enum`
+    # makes the enum scoped (its members are qualified with the enum's name in C and Fortran)
+    es = dm.func("Parser.enum_statement")
+    consumed, scoped = set(), set()
+    for i_ in ast.walk(es):
+        if isinstance(i_, ast.If):
+            t_ = i_.test
+            if isinstance(t_, ast.Call) and (pyflow.call_name(t_) or "") == "self.have" and t_.args and pyflow.const_str(t_.args[0]) in ("CLASS", "STRUCT"):
+                consumed.add(pyflow.const_str(t_.args[0]))
+                for a_ in i_.body:
+                    if isinstance(a_, ast.Assign) and pyflow.is_name(a_.targets[0], "scope") and not (
+                            isinstance(a_.value, ast.Constant) and a_.value.value is None):
+                        scoped.add(pyflow.const_str(t_.args[0]))
+            if isinstance(t_, ast.Compare) and str(dm.seg(t_.left)) == "self.token.typ" and isinstance(t_.ops[0], ast.In) \
+                    and any((pyflow.call_name(c_) or "") == "self.next" for st_ in i_.body for c_ in ast.walk(st_) if isinstance(c_, ast.Call)):
+                consumed.update(pyflow.const_str(e_) for e_ in t_.comparators[0].elts if pyflow.const_str(e_) in ("CLASS", "STRUCT"))
+    for a_ in ast.walk(es):
+        if isinstance(a_, ast.Assign) and pyflow.is_name(a_.targets[0], "scope") and isinstance(a_.value, ast.Call) \
+                and isinstance(a_.value.func, ast.Attribute) and a_.value.func.attr == "get" and isinstance(a_.value.func.value, ast.Dict):
+            scoped.update(pyflow.const_str(k_) for k_ in a_.value.func.value.keys)
+    if not consumed:
+        raise AnalysisError("C11.R5: the scope keywords of Parser.enum_statement are not recognised")
+    run.check(R5, "declast.Parser.enum_statement:scoped", consumed <= scoped and {"CLASS", "STRUCT"} <= consumed,
+              "after `enum` the parser consumes %s but only %s makes the enum scoped: the members of `enum struct E { A }` are "
+              "emitted unqualified (`A` instead of `E_A`) and collide with equally named members of other enums"
+              % (sorted(consumed), sorted(scoped)), dm.loc(es))
     # one token, one leaf: a Constant is the text of exactly one literal token (a sign stays a UnaryOp node - that node kind
     # is what the printer parenthesises and what the octal rules look through)
     pr = dm.func("ExprParser.primary")
